@@ -65,7 +65,7 @@ def replay_one(col, bs, root, seed, bi):
             return 10.0 ** ((grid[perm[m]][band] + ap) / 4.0)
         unc = lambda m, a, w: 0.01 * val(m, a, w)
         pars = [{n_: 10.0 + ALL.index(n_) for n_ in ALL}, {n_: 100.0 * (1 + ALL.index(n_)) for n_ in ALL}]
-        apu = ['au', 'pc', 'cm'][bi % 3]                      # the unit in which the package stores its aperture radii
+        apu = ['au', 'pc', 'cm', 'kpc'][bi % 4]                      # the unit in which the package stores its aperture radii
         if fmt == 'perfile':
             stored = [rng.choice(['asc', 'desc']) for _ in range(nmod)]
             pw.build_perfile(d, names, wav, aps, val, unc, stored=stored, aperture_dependent=(mode == 'dist'), logd_step=1.0001, par_values=pars,
